@@ -1,5 +1,5 @@
 (** Correspondence runner for C06: exact key text of TapeRecorder._input_interception_key. *)
-From Playback Require Export Base.Str Values.PyVal Values.Codec Values.KeyFormat.
+From Playback Require Export Base.Str Values.PyVal Values.Codec Values.KeyFormat Values.JsonWf.
 Open Scope list_scope.
 
 Record case := Case {
@@ -16,7 +16,13 @@ Record case := Case {
 Definition model_key (c : case) : option str :=
   ikey encode (c_alias c) (c_cap c) (c_static c) (c_args c) (c_kwargs c).
 
+(** the leaf premise of the injectivity theorem ([leaves_ok]: float texts in the grammar, bytes < 256) holds
+    of every value the harness sends *)
+Definition premises_ok (c : case) : bool :=
+  forallb leaves_ok (c_args c) && forallb (fun kv => leaves_ok (snd kv)) (c_kwargs c).
+
 Definition check_case (c : case) : bool :=
+  premises_ok c &&
   option_eqb str_eqb (model_key c) (c_impl c) &&
   match c_impl_dec c with
   | None => true
